@@ -15,8 +15,8 @@ from typing_extensions import dataclass_transform, ParamSpec, Self, TypeAlias
 
 from .convert import DataType, Convertible, from_data, into_data, convert
 from .convert import ConverterHandler, ConverterHandlers, IntoConverterHandlers
-from .converters import Converter, make_converter, data_is_sequence
-from .errors import ConvertError, ParseInterrupt, ErrorNode
+from .converters import Converter, make_converter, data_is_sequence, _known_key, _hashable
+from .errors import ConvertError, ParseInterrupt, ErrorNode, _show
 from .errors import WrongTypeError, WrongLenError, ProductErrorNode, DuplicateKeyError
 from .field import Field, FieldSpec, field, RenameStyle, rename_field, _MISSING
 from .util import get_type_hints, list_phrase, KW_ONLY
@@ -857,7 +857,7 @@ class PaneConverter(Converter[PaneBaseT]):
         # loop through values, and handle accordingly
         values: t.Dict[str, t.Any] = {}
         for (k, v) in t.cast(t.Dict[str, t.Any], val).items():
-            if k not in self.field_map:
+            if not _known_key(self.field_map, k):
                 if not self.opts.allow_extra:
                     raise ParseInterrupt()  # extra key
                 continue
@@ -890,9 +890,9 @@ class PaneConverter(Converter[PaneBaseT]):
         extra: t.Set[str] = set()  # extra fields found
         seen: t.Set[str] = set()   # fields seen already (used to find dupes)
         for (k, v) in val.items():
-            if k not in self.field_map:
+            if not _known_key(self.field_map, k):
                 if not self.opts.allow_extra:
-                    extra.add(k)  # unknown key
+                    extra.add(k if _hashable(k) else _show(k))  # unknown key
                 continue
 
             field = self.fields[self.field_map[k]]
